@@ -297,6 +297,8 @@ def run_property(pid, tier, seed):
     extra = {}
     e1_funcs = sorted({o['sig'] for o in obs if o['backend'] == 'E1' and o['sig']})
     e1_names = {f.split('[')[0] for f in e1_funcs}
+    e1_names |= {n.split('(')[0] for n in e1_names}                                    # TT.__init__(array) is a branch of TT.__init__
+    e1_names |= {'fn:' + n.split('.', 1)[1] for n in e1_names if n.startswith('fn:') and '.' in n}      # fn:evp.als is evp:als
     def _short(f):
         m, _, q = f.partition(':')
         return q if q.startswith('TT.') else 'fn:' + q
